@@ -522,8 +522,20 @@ def rt_nontrivial(inp, impl):
     return ks
 
 
+def x_nontrivial(inp, impl):
+    ks = ["exchanged"]
+    if " X ok " in impl:
+        ks.append("parsed-by-client")
+    w = impl.split(" X ")[0]
+    if "5c" in w or "\\" in w:
+        ks.append("escapes-on-the-wire")
+    return ks
+
+
 def run_idlrt(run, cfg, G):
     diff_run(run, G, ["idlrt"], "idlrt", rt_nontrivial, "idlrt", known_key=idl_known_key)
+    # the GetInterfaceDescription exchange end to end: service send_reply -> client proxy call -> parse()
+    diff_run(run, G, ["idlx"], "idlx", x_nontrivial, "idlx")
     # the explicit inline-enum witness (constructor-built only)
     lines = G["run_scenario"](run, ["idlrt"], extra=["--index", "999999999"]) or []
     wl = [l for l in (G["run_scenario"](run, ["idlrt"]) or []) if l.startswith("idlrt-inline-witness")]
@@ -540,10 +552,13 @@ def run_idlrt(run, cfg, G):
             run.violations.append(("impl", path, ""))
     def search():
         diff_run(run, G, ["idlrt"], "idlrt", rt_nontrivial, "idlrt-search", tier="thorough", seed_offset=1, record=False, known_key=idl_known_key)
+        diff_run(run, G, ["idlx"], "idlx", x_nontrivial, "idlx-search", tier="thorough", seed_offset=1, record=False)
     finish_corr(run, G, [search])
     run.cov["rule"] = ("descriptions built through the public constructors in both forms (new_owned and the borrowed const-style new; their Display output must agree) from the generator of C13 covering every type constructor, "
                        "empty and non-empty member lists and comments at interface / member / field / parameter / variant level; Display text, Interface::try_from of that text and Display of the result are observed; "
-                       "the model renders and parses the same tree; oracle: parsed tree = original tree and re-rendering = text; non-trivial = rendered and parsed back; distinct = distinct case lines")
+                       "the model renders and parses the same tree; oracle: parsed tree = original tree and re-rendering = text; non-trivial = rendered and parsed back; distinct = distinct case lines; "
+                       "scenario idlx: the GetInterfaceDescription exchange on real connections (service: send_reply of InterfaceDescription::from(&interface); client: the varlink_service proxy method fed with exactly the written bytes under random read sizes, "
+                       "then InterfaceDescription::parse), comments spiced with quotes, backslashes, control characters and non-ASCII text so that the JSON string escaping is exercised; the model predicts the frame byte for byte and the parsed tree")
 
 
 # ------------------------------------------------------------------------------------ notified (C20)
@@ -948,14 +963,15 @@ PROPS = {
     },
     "C14": {
         "property_modules": ["Zlink.Properties.C14"], "lean_modules": ["Zlink.Properties.C14"],
-        "theorems": ["C14.C14_comment_roundtrip", "C14.C14_parse_render", "C14.C14_render_fixpoint", "C14.renderIface_eq_refText",
+        "theorems": ["C14.C14_comment_roundtrip", "C14.C14_parse_render", "C14.C14_render_fixpoint", "C14.C14_exchange", "C14.renderIface_eq_refText",
                      "C14.C14_commented_variant_counterexample"],
         "run": run_idlrt, "trusted_base": TB_COMMON,
         "assumptions": [
             "core::fmt (write!/writeln!) concatenates as modelled in Zlink/Model/IdlRender.lean (validated: byte-identical text on every explored tree)",
             "proved (unbounded): parse(render a) = a and render(parse(render a)) = render a for every well-formed description without commented enum variants (C14_parse_render, C14_render_fixpoint); the excluded class is exactly the listed finding "
             "(C14_commented_variant_counterexample proves the model refuses that rendering too); C14_statement is kept as the statement",
-            "the GetInterfaceDescription exchange end to end (serialize as string, deserialize, parse) is not yet part of this check",
+            "C14_exchange (GetInterfaceDescription end to end): the JSON string reader is a Lean model of the part of serde_json's string parser that zlink's escaping exercises (Zlink/Model/JsonStr.lean); serde_json itself, the reply envelope and the proxy call are "
+            "exercised by scenario idlx on real connections (frame predicted byte for byte, parsed tree = described tree)",
         ],
     },
     "C19": {
